@@ -251,9 +251,37 @@ def row_shape_defects(doc, testnet, account, start):
                 defects.add("wrong-chain")
             if not ih and start is not None and i != start + n:
                 defects.add("wrong-address-index")
-        acct = doc[blk].get("account_extended_keys", {}).get("path", "")
+        acct = (doc[blk].get("account_extended_keys") or {}).get("path", "")
         if account is not None and not re.match(r"^m/%d'/\d+'/%d'$" % (purpose, account), str(acct)):
             defects.add("account-path-shape")
     if "row-path-malformed" in defects and "address-index-hardened" not in defects:
         pass
     return sorted(defects)
+
+
+def public_data_defects(ref, doc):
+    """ref: reference (white-list) filter of the unfiltered wallet; doc: what the command emitted.
+    Every path, address, public key and extended public key of ref must be present, in place and identical.
+    Extra fields / columns are allowed here (they are scanned for secrets separately): the property forbids
+    secrets and altered public data, not additional harmless data."""
+    out = []
+    if not isinstance(doc, dict):
+        return ["output is not a JSON object"]
+    for blk, v in ref.items():
+        d = doc.get(blk)
+        if not isinstance(d, dict):
+            out.append("%s missing" % blk)
+            continue
+        a = d.get("account_extended_keys")
+        if not isinstance(a, dict) or a.get("path") != v["account_extended_keys"]["path"] or \
+                a.get("pub") != v["account_extended_keys"]["pub"]:
+            out.append("%s account path/pub differ" % blk)
+        g = d.get("groups")
+        if not isinstance(g, list) or len(g) != len(v["groups"]):
+            out.append("%s row count differs" % blk)
+            continue
+        for i, (row, want) in enumerate(zip(g, v["groups"])):
+            if not isinstance(row, list) or list(row[:3]) != list(want[:3]):
+                out.append("%s row %d public columns differ" % (blk, i))
+                break
+    return out
